@@ -383,6 +383,7 @@ func RenderWithAST(mjmlContent string, opts ...RenderOption) (*RenderResult, err
 
 	// Set the global attributes instance
 	globals.SetGlobalAttributes(globalAttrs)
+	renderOpts.GlobalAttributes = globalAttrs
 
 	// Create component tree
 	debug.DebugLog("mjml", "component-tree-start", "Creating component tree from AST")
@@ -474,7 +475,7 @@ func RenderFromAST(ast *MJMLNode, opts ...RenderOption) (string, error) {
 		}
 	}
 
-	applyGlobalAttributesFromAST(ast)
+	renderOpts.GlobalAttributes = applyGlobalAttributesFromAST(ast)
 
 	component, err := CreateComponent(ast, renderOpts)
 	if err != nil {
@@ -501,7 +502,7 @@ func NewFromAST(ast *MJMLNode, opts ...RenderOption) (Component, error) {
 		opt(renderOpts)
 	}
 
-	applyGlobalAttributesFromAST(ast)
+	renderOpts.GlobalAttributes = applyGlobalAttributesFromAST(ast)
 
 	return CreateComponent(ast, renderOpts)
 }
@@ -671,13 +672,17 @@ func (c *MJMLComponent) collectCarouselCSSFromComponent(comp Component) {
 // hasCustomGlobalFonts checks if global attributes specify custom fonts
 func (c *MJMLComponent) hasCustomGlobalFonts() bool {
 	// Check if global attributes have specified font-family
-	globalFontFamily := globals.GetGlobalAttribute("mj-all", "font-family")
+	getGlobal := globals.GetGlobalAttribute
+	if c.RenderOpts != nil && c.RenderOpts.GlobalAttributes != nil {
+		getGlobal = c.RenderOpts.GlobalAttributes.GetGlobalAttribute
+	}
+	globalFontFamily := getGlobal("mj-all", "font-family")
 	if globalFontFamily != "" && globalFontFamily != fonts.DefaultFontStack {
 		return true
 	}
 
 	// Check if any text components have global font-family defined
-	textFontFamily := globals.GetGlobalAttribute("mj-text", "font-family")
+	textFontFamily := getGlobal("mj-text", "font-family")
 	if textFontFamily != "" && textFontFamily != fonts.DefaultFontStack {
 		return true
 	}
